@@ -137,7 +137,7 @@ func genC20(t *rapid.T, thorough bool) C20Case {
 	case "sym", "gostring":
 		c := C20Case{Kind: kind}
 		alpha := rapid.SampledFrom([][]int{{'a', 'b'}, {'a', 'b', 'c', 255}, {0, 1, '\'', '\\', 0x80, 0xe9, 254, 255, 'A', '\n'}}).Draw(t, "alphabet")
-		n := rapid.IntRange(0, 12).Draw(t, "n")
+		n := rapid.OneOf(rapid.IntRange(0, 12), rapid.IntRange(0, 60)).Draw(t, "n")
 		for i := 0; i < n; i++ {
 			e := MatEntry{A: rapid.SampledFrom(alpha).Draw(t, "a"), B: rapid.SampledFrom(alpha).Draw(t, "b"), V: genScore(t)}
 			if kind == "sym" && len(c.Entries) > 0 && rapid.IntRange(0, 2).Draw(t, "mirror") == 0 {
@@ -746,7 +746,38 @@ func exhaustiveC20(thorough bool, emit func(C20Case) bool) {
 		es = append(es, MatEntry{A: b, B: 255 - b, V: gen.F(scores[b%len(scores)])})
 	}
 	sort.Slice(es, func(i, j int) bool { return (es[i].A*7)%256 < (es[j].A*7)%256 })
-	emit(C20Case{Kind: "gostring", Entries: es})
+	if !emit(C20Case{Kind: "gostring", Entries: es}) {
+		return
+	}
+	// complete square tables as NCBI ships them (many columns per row, gap row and column), for
+	// GoString (order within a row) and Symmetrical (complete tables, with and without one
+	// disagreeing mirrored pair)
+	for _, letters := range []string{"ARND", "ARNDCQEGHILKMFPSTWYVBZX\xff", "acgtnACGTN\xff"} {
+		var sq []MatEntry
+		for i := 0; i < len(letters); i++ {
+			for j := 0; j < len(letters); j++ {
+				v := float64((i*j)%7 - 3)
+				if i == j {
+					v = float64(4 + i%5)
+				}
+				sq = append(sq, MatEntry{A: int(letters[i]), B: int(letters[j]), V: gen.F(v)})
+			}
+		}
+		// in a scrambled insertion order
+		sort.SliceStable(sq, func(i, j int) bool { return (sq[i].A*31+sq[i].B*17)%97 < (sq[j].A*31+sq[j].B*17)%97 })
+		if !emit(C20Case{Kind: "gostring", Entries: sq}) || !emit(C20Case{Kind: "sym", Entries: sq}) {
+			return
+		}
+		bad := append([]MatEntry(nil), sq...)
+		for i := range bad {
+			if bad[i].A == int(letters[1]) && bad[i].B == int(letters[2]) {
+				bad[i].V += 1
+			}
+		}
+		if !emit(C20Case{Kind: "sym", Entries: bad}) {
+			return
+		}
+	}
 }
 
 func propC20() Prop[C20Case] {
